@@ -179,6 +179,14 @@ def build_cases(rng, sizes, full: bool) -> typing.Tuple[Tree, typing.List[Case]]
         path = rng.choice([b"", b"docs/"]) + (nm + ext).encode()
         t.file(path, data)
         cases.append(Case(path, data, mimeref.mime_for_ext(ext), data, ("content:binary", "name:urlish", "ext:" + ext)))
+    # names that Unicode normalisation (or case folding) would change: a file is found under the bytes it is stored
+    # under; two files whose names differ only in normalisation form are two files
+    for j, nm in enumerate(["cafe\u0301", "caf\u00e9", "\u212bngstrom", "\u00c5ngstrom", "\uf900 compat", "\ufb01le", "\u1112\u1161\u11ab",
+                            "\ud55c", "STRASSE", "stra\u00dfe", "i\u0307stanbul", "\u0130stanbul", "\u03a9 ohm", "\u2126 ohm"]):
+        data = trees.gen_content(rng, 5000 + 1001 * j, "binary")
+        path = b"both/" + (nm + ".bin").encode()
+        t.file(path, data)
+        cases.append(Case(path, data, mimeref.mime_for_ext(".bin"), data, ("content:binary", "name:normalisation-sensitive", "ext:.bin")))
     # paths near the limits: five levels of 240-byte names, a 255-byte name, a path whose percent-encoded form triples
     deep = b"/".join(bytes([97 + k]) * 240 for k in range(5))
     for path in (deep + b"/doc.pdf", b"N" * 251 + b".gif", b"/".join([("\u00e9" * 120).encode()] * 2) + b"/doc.png"):
@@ -225,6 +233,11 @@ def build_cases(rng, sizes, full: bool) -> typing.Tuple[Tree, typing.List[Case]]
                     cases.append(Case(path, packed, mimeref.mime_for_ext(ext), inner, ("dec:" + comp, "ext:" + ext)))
                 else:
                     cases.append(Case(path, packed, "application/octet-stream", packed, ("enc:" + comp, "ext:" + ext)))
+    # compress(1) output: the one suffix of the standard encoding table that is written in upper case
+    for j, nm in enumerate(["notes.txt.Z", "emacs.tar.Z", "core.Z", "REPORT.TXT.Z", "a.ps.Z"]):
+        data = b"\x1f\x9d\x90" + trees.gen_content(rng, 3000 + 500 * j, "binary")
+        t.file(b"enc/" + nm.encode(), data)
+        cases.append(Case(b"enc/" + nm.encode(), data, "application/octet-stream", data, ("enc:compress", "ext:.Z")))
     return t, cases
 
 
